@@ -463,17 +463,22 @@ theorem peekable_sim (c : Co) : Sim (peekableCo c) c (fun st s => st.inner = s) 
         cases (c.next st.inner).out <;> exact ⟨rfl, rfl⟩
       rw [e.1, e.2]; exact isRun_next c st.inner
   · intro (st : Peek c.σ)
-    cases hf : st.rear with
-    | some v =>
-      have e : (peekableCo c).back st = ⟨some v, { st with rear := none }, []⟩ := by simp [peekableCo, hf]
+    cases hbd : c.bidir with
+    | false =>
+      have e : (peekableCo c).back st = ⟨none, st, []⟩ := by simp [peekableCo, hbd]
       rw [e]; exact isRun_refl c st.inner
-    | none =>
-      have e : ((peekableCo c).back st).st.inner = (c.back st.inner).st ∧
-          ((peekableCo c).back st).ev = (c.back st.inner).ev := by
-        simp only [peekableCo, hf]
-        cases (c.back st.inner).out <;> exact ⟨rfl, rfl⟩
-      rw [e.1, e.2]; exact isRun_back c st.inner
-
+    | true =>
+      cases hf : st.rear with
+      | some v =>
+        have e : (peekableCo c).back st = ⟨some v, { st with rear := none }, []⟩ := by
+          simp [peekableCo, hbd, hf]
+        rw [e]; exact isRun_refl c st.inner
+      | none =>
+        have e : ((peekableCo c).back st).st.inner = (c.back st.inner).st ∧
+            ((peekableCo c).back st).ev = (c.back st.inner).ev := by
+          simp only [peekableCo, hbd, hf, if_true]
+          cases (c.back st.inner).out <;> exact ⟨rfl, rfl⟩
+        rw [e.1, e.2]; exact isRun_back c st.inner
 
 /-! ### two inputs: interleavings -/
 
